@@ -26,6 +26,11 @@ CHECKS = {
    note='One event per recv() (segmentation is C09); STARTTLS with an open transaction and AUTH PLAIN in clear text are left to C08; transparent fake TLS, fake PTR lookup, recording queue; commands with non-UTF-8 arguments only need an error reply and no callback.',
    technique='explicit-state BFS over the real server state graph with a reference automaton as oracle',
    design='5/C07'),
+ 'C08': dict(level='exploration', engine='E2-seq',
+   text='Finite product, completely enumerated on the real SmtpEdge/Server/Client with a fake TLS that keeps clear and TLS bytes in separate channels: 4 session prefixes x 7 clear-text injections behind STARTTLS x same/later segment x 5 TLS scripts (+ immediate TLS), judged metamorphically against the injection-free run plus absolute post-handshake reset checks; 5 reply injections behind the client-side 220; AUTH gating table: 5 mechanisms x 7 argument shapes x 18 Unicode credential triples x 3 TLS modes x 4 positions x 2 verdicts.',
+   note='Fake TLS (a handshake with unread clear-text bytes fails, as real TLS fed plaintext does); empty authzid may be shown as None, "" or the authcid; lenient base64 that merely continues the challenge is accepted.',
+   technique='exhaustive enumeration of a finite scenario product on the real code with a metamorphic oracle and a gating table',
+   design='5/C08'),
 }
 
 def main():
